@@ -1,5 +1,6 @@
 import RTA.Lemmas.Tight
 import RTA.Lemmas.FpSound
+import RTA.Lemmas.TightFP
 /-! # C18 — fully preemptive FP, non-preemptive FP and FIFO bounds are attained
 
 Proved here: the FIFO part, at full generality for task sets whose arrival curves are
@@ -9,10 +10,14 @@ job has a response time exactly equal to the bound, and a legal FIFO schedule ex
 every job set.  Sporadic tasks with release jitter (and periodic tasks, `J = 0`) have
 such realising sequences (`criticalInstantAt`).
 
-The fully preemptive and the fully non-preemptive fixed-priority parts are stated
-(`FpPreemptiveTight`, `FpNonpreemptiveTight`) and explored by the falsifier (simulation of
-the critical-instant schedule; a bound larger than the witnessed response time is reported
-as a violation); they are not yet theorems. -/
+The fully preemptive fixed-priority part is proved in the same form
+(`fp_preemptive_bound_is_tight`: in EVERY legal fully preemptive FP schedule of a job set that
+realises the curves of the analysed task and of the higher-priority tasks from a common
+instant, with the analysed task's jobs at their WCET, some job of the analysed task has a
+response time exactly equal to the bound; `legal_fp_schedule_exists`).  The fully
+non-preemptive part is stated (`FpNonpreemptiveTight` in DESIGN.md terms) and explored by the
+falsifier (simulation of the critical-instant schedule with a lower-priority job started one
+tick earlier; a bound larger than the witnessed response time is reported as a violation). -/
 
 namespace RTA.C18
 open RTA RTA.Sched RTA.Spec
@@ -48,15 +53,30 @@ theorem fifo_lower_bound (s : Sys) (hl : FifoLegal s) (t₀ A : ℕ)
     ∃ j, j < s.n ∧ s.arr j = t₀ + A ∧ ∀ R, MeetsBound s j R → work s t₀ (t₀ + A + 1) ≤ A + R :=
   fifo_response_lower_bound_from s hl t₀ A hex hpos
 
-/-- the full claims for fixed priority (stated, explored, not proved): there is a legal
-schedule in which a job of the analysed task has response time exactly the bound -/
-def FpPreemptiveTight : Prop :=
-  ∀ (ts : List (ℕ × ℕ × ℕ)) (i : ℕ),  -- (period, jitter, WCET), index = priority
-    i < ts.length → (∀ p ∈ ts, 1 ≤ p.1 ∧ 1 ≤ p.2.2) →
-    ∀ limit R, fpPreemptive (.rbf (.sporadic (ts.getD i default).1 (ts.getD i default).2.1)
-        (.scalar (ts.getD i default).2.2))
-      ((ts.take i).map fun p => .rbf (.sporadic p.1 p.2.1) (.scalar p.2.2)) limit = .ok R →
-    ∃ (s : Sys) (pr : ℕ → ℕ), JlfpLegal s (hepFP s pr) ∧ (∀ l x, ¬ s.np l x) ∧
-      ∃ j, j < s.n ∧ s.task j = i ∧ MeetsBound s j R ∧ ∀ R', R' < R → ¬ MeetsBound s j R'
+/-- C18 for fully preemptive FP (priorities = task indices): the bound is attained in every
+legal schedule of a job set that realises the curves from `t₀` (`hown`: the analysed task
+releases exactly `number_arrivals(Δ)` jobs in `[t₀, t₀+Δ)`; `hhp`: the higher-priority tasks
+release exactly their maximal workload; `hcost`: jobs of the analysed task run for the WCET) -/
+theorem fp_preemptive_bound_is_tight (s : Sys) (i : ℕ) (a : Arr) (C : ℕ) (hp : List (Arr × ℕ))
+    (hS : FpSetting s id i (.rbf a (.scalar C)) (hp.map fun p => RB.rbf p.1 (.scalar p.2)) 0)
+    (hnp : ∀ l x, ¬ s.np l x)
+    (hwf : a.WF) (hex : a.Exact) (hC : 1 ≤ C)
+    (hwfo : ∀ p ∈ hp, p.1.WF ∧ p.1.Exact ∧ 1 ≤ p.2)
+    (limit R L t₀ : ℕ)
+    (hR : fpPreemptive (.rbf a (.scalar C)) (hp.map fun p => RB.rbf p.1 (.scalar p.2)) limit = .ok R)
+    (hL : naiveSolve (fun x => 0 + sumNeed (hp.map fun p => RB.rbf p.1 (.scalar p.2)) x +
+        (RB.rbf a (.scalar C)).need x) limit = .ok L)
+    (hown : ∀ Δ, Δ ≤ L → cntOf s (fun x => x = i) t₀ (t₀ + Δ) = a.N Δ)
+    (hcost : ∀ k, k < s.n → s.task k = i → s.cost k = C)
+    (hhp : ∀ Δ, Δ ≤ L → workOf s (fun x => x < i) t₀ (t₀ + Δ) =
+        sumNeed (hp.map fun p => RB.rbf p.1 (.scalar p.2)) Δ)
+    (hRpos : 0 < R) :
+    ∃ j, j < s.n ∧ s.task j = i ∧ MeetsBound s j R ∧ ∀ R', R' < R → ¬ MeetsBound s j R' :=
+  fp_preemptive_bound_attained s i a C hp hS hnp hwf hex hC hwfo limit R L t₀ hR hL hown hcost hhp hRpos
+
+/-- every job set has a legal fully preemptive fixed-priority schedule -/
+theorem legal_fp_schedule_exists (js : JobSet) (hpos : ∀ k, k < js.n → 1 ≤ js.cost k) :
+    ∃ sched, JlfpLegal (js.withSched sched) (hepFP (js.withSched sched) id) :=
+  exists_fp_preemptive_schedule js hpos
 
 end RTA.C18
